@@ -100,7 +100,19 @@ def special_expr(rng):
     """Constant expressions whose folded value has no plain literal spelling."""
     F = lambda e, n, *a: ["filter", e, n, list(a), []]
     C = lambda v: ["const", v]
+    recs = ["list", [["dict", [[C("a"), C(1)], [C("b"), C(2)]]], ["dict", [[C("a"), C(1)], [C("b"), C(3)]]],
+                     ["dict", [[C("a"), C(2)], [C("b"), C(4)]]]]]
+    grouped = ["filter", recs, "groupby", [C("a")], []]
     return rng.choice([
+        # filters on constants whose result is a SUBCLASS of a builtin container / str
+        ["attr", F(grouped, "first"), "grouper"], ["attr", F(grouped, "last"), "list"],
+        ["attr", ["item", F(grouped, "list"), C(1)], "grouper"],
+        ["filter", F(grouped, "map", C("first")) if False else ["filter", grouped, "map", [], [["attribute", C("grouper")]]], "list", [], []],
+        ["test", F(C("<b>"), "safe"), "escaped", [], False],
+        ["test", ["bin", "~", F(C("<b>"), "safe"), C("x")], "escaped", [], False],
+        F(F(C("<b>"), "safe"), "e"), F(["bin", "~", F(C("<i>"), "safe"), C("<")], "e"),
+        ["attr", F(["dict", [[C("k"), C(1)]]], "items"), "nope"],
+        F(["filter", ["list", [C(3), C(1), C(2)]], "batch", [C(2)], []], "list"),
         F(C("inf"), "float"), F(C("-inf"), "float"), F(C("nan"), "float"),
         ["bin", "*", C(1e308), C(10)], ["bin", "-", ["bin", "*", C(1e308), C(10)], ["bin", "*", C(1e308), C(10)]],
         ["bin", "+", F(C("inf"), "float"), C(1)], F(F(C("inf"), "float"), "string"),
@@ -113,7 +125,7 @@ def special_expr(rng):
 
 
 def gen_expr(rng, data):
-    if rng.random() < 0.06:
+    if rng.random() < 0.10:
         return special_expr(rng)
     g = exprgen.Gen(rng, vocab=VOCAB)
     tree = g.expr(rng.choice([2, 3, 3, 4]))
